@@ -12,6 +12,7 @@ import (
 	"bufio"
 	"bytes"
 	"encoding/binary"
+	"encoding/hex"
 	"encoding/json"
 	"flag"
 	"fmt"
@@ -24,6 +25,7 @@ import (
 	"path/filepath"
 	"regexp"
 	"runtime"
+	"runtime/debug"
 	"runtime/metrics"
 	"sort"
 	"strings"
@@ -132,6 +134,16 @@ func allocs() uint64 {
 	return allocSample[0].Value.Uint64()
 }
 
+// allocKB returns the KiB allocated since a0; after a big allocation the garbage is collected at once so that
+// consecutive calls never add up to the heap cap of the watchdog (the cap is for calls that do not return).
+func allocKB(a0 uint64) int {
+	kb := int((allocs() - a0) >> 10)
+	if kb > 64<<10 {
+		debug.FreeOSMemory()
+	}
+	return kb
+}
+
 func memWatch(capMB uint64) {
 	s := []metrics.Sample{{Name: "/memory/classes/heap/objects:bytes"}}
 	for {
@@ -223,7 +235,7 @@ func childMain(inputs, scratch string, capMB uint64, portBase int) {
 			emit(line{"ph": "begin", "l": l})
 			a0 := allocs()
 			mi, err := metainfo.New(bytes.NewReader(data))
-			l["akb"] = int((allocs() - a0) >> 10)
+			l["akb"] = allocKB(a0)
 			if err == nil {
 				parsed = mi
 				project(l, &mi.Info)
@@ -237,7 +249,7 @@ func childMain(inputs, scratch string, capMB uint64, portBase int) {
 				emit(line{"ph": "begin", "l": l})
 				a0 := allocs()
 				info, err := metainfo.NewInfo(infoB, k == 1, false)
-				l["akb"] = int((allocs() - a0) >> 10)
+				l["akb"] = allocKB(a0)
 				if err == nil {
 					project(l, info)
 					l["size"] = limbsI(int64(len(info.Bytes)))
@@ -252,7 +264,7 @@ func childMain(inputs, scratch string, capMB uint64, portBase int) {
 			emit(line{"ph": "begin", "l": l})
 			a0 := allocs()
 			t, err := s.AddTorrent(bytes.NewReader(data), &torrent.AddTorrentOptions{Stopped: true})
-			l["akb"] = int((allocs() - a0) >> 10)
+			l["akb"] = allocKB(a0)
 			if err == nil {
 				if mi := parse(); mi != nil {
 					project(l, &mi.Info)
@@ -279,7 +291,7 @@ func childMain(inputs, scratch string, capMB uint64, portBase int) {
 				}
 				a0 := allocs()
 				pieces := piece.NewPieces(&mi.Info, files)
-				l["akb"] = int((allocs() - a0) >> 10)
+				l["akb"] = allocKB(a0)
 				steps := int64(0)
 				for i := range pieces {
 					steps += int64(len(pieces[i].Data))
@@ -303,6 +315,7 @@ func childMain(inputs, scratch string, capMB uint64, portBase int) {
 			t, err := s.AddTorrent(bytes.NewReader(data), nil)
 			if err == nil {
 				l["acc"] = 1
+				emit(line{"ph": "begin", "l": l}) // accepted and started: a death from here on is charged to an accepted description
 				n, _, _, ok := firstValueLen(data)
 				if !ok {
 					n = len(data)
@@ -340,9 +353,9 @@ func childMain(inputs, scratch string, capMB uint64, portBase int) {
 		}
 		emit(line{"ph": "end", "id": idx})
 	}
-	if sess != nil {
-		sess.Close()
-	}
+	// no Session.Close: the scratch directory is removed by the parent and closing is not part of the property
+	out.Flush()
+	os.Exit(0)
 }
 
 // ---------------------------------------------------------------------------------------------- parent
@@ -378,8 +391,12 @@ func siteOf(stderr string, timedOut bool) (ev, where string) {
 	}
 	// goroutine blocks; prefer a running/runnable goroutine that is inside repository (or bencode) code
 	blocks := regexp.MustCompile(`(?m)^goroutine \d+ `).Split(stderr, -1)
-	pick := func(needState bool) string {
+	core := regexp.MustCompile(`rain/v2/internal/(piece|metainfo|allocator|storage)|zeebo/bencode|rain/v2/torrent\.\(\*(torrent|Session)\)`)
+	pick := func(needState bool, needCore bool) string {
 		for _, b := range blocks[1:] {
+			if needCore && !core.MatchString(b) {
+				continue
+			}
 			if strings.Contains(b, "main.memWatch") || strings.Contains(b, "os/signal") || strings.Contains(b, "runtime.Stack") {
 				continue
 			}
@@ -393,6 +410,9 @@ func siteOf(stderr string, timedOut bool) (ev, where string) {
 			var first, firstRain string
 			for _, ln := range strings.Split(b, "\n") {
 				if m := reFrame.FindString(ln); m != "" && !strings.Contains(m, "internal/verif") {
+					if i := strings.LastIndex(ln, "("); i > 0 {
+						m = ln[:i] // pkg.(*T).method(args) -> pkg.(*T).method
+					}
 					short := m[strings.LastIndex(m, "/")+1:]
 					if first == "" {
 						first = short
@@ -411,9 +431,12 @@ func siteOf(stderr string, timedOut bool) (ev, where string) {
 		}
 		return ""
 	}
-	s := pick(true)
+	s := pick(true, true)
 	if s == "" {
-		s = pick(false)
+		s = pick(false, true)
+	}
+	if s == "" {
+		s = pick(true, false)
 	}
 	if s == "" {
 		s = "?"
@@ -454,6 +477,8 @@ type runner struct {
 	memcap   int
 	deadline time.Duration // wall-clock limit between two lines of a child (deadlock backstop)
 	cpuLimit time.Duration // CPU time one job may burn: load-independent hang criterion
+	extra    map[int]time.Duration // + allowance per input, linear in the number of pieces of the accepted description
+	retried  map[string]bool
 	mu       sync.Mutex
 	lines    []line
 	machErr  []string
@@ -471,7 +496,7 @@ func (r *runner) runBatch(worker int, jobs []job) {
 		os.MkdirAll(dir, 0o755)
 		cmd := exec.Command(r.self, "-mode", "child", "-inputs", r.inputs, "-scratch", dir, "-memcap", fmt.Sprint(r.memcap),
 			"-portbase", fmt.Sprint(30000+((os.Getpid()*7+worker)%250)*100))
-		cmd.Env = append(os.Environ(), "GOTRACEBACK=all")
+		cmd.Env = append(os.Environ(), "GOTRACEBACK=all", "GOMAXPROCS=2")
 		var jb bytes.Buffer
 		for _, j := range jobs {
 			fmt.Fprintf(&jb, "%d %d\n", j.idx, j.flags)
@@ -503,11 +528,13 @@ func (r *runner) runBatch(worker int, jobs []job) {
 		timedOut := false
 		timer := time.NewTimer(r.deadline)
 		cpu0 := cpuOf(cmd.Process.Pid)
+		limit := r.cpuLimit
 		tick := time.NewTicker(50 * time.Millisecond)
 		handle := func(l line) {
 			switch l["ph"] {
 			case "job":
 				cpu0 = cpuOf(cmd.Process.Pid)
+				limit = r.cpuLimit + r.extra[idOf(l)]
 			case "begin":
 				pending = l["l"].(map[string]any)
 			case "case":
@@ -546,7 +573,7 @@ func (r *runner) runBatch(worker int, jobs []job) {
 				if len(linesC) > 0 {
 					continue // lines first: the CPU clock is only meaningful for the job being announced
 				}
-				if c := cpuOf(cmd.Process.Pid); c-cpu0 < r.cpuLimit {
+				if c := cpuOf(cmd.Process.Pid); c-cpu0 < limit {
 					continue
 				}
 				stop()
@@ -559,11 +586,21 @@ func (r *runner) runBatch(worker int, jobs []job) {
 		tick.Stop()
 		err := cmd.Wait()
 		os.RemoveAll(dir)
-		if done >= len(jobs) && err == nil {
+		if done >= len(jobs) {
 			return
 		}
 		// the child died while working on jobs[done]
 		se := stderr.String()
+		if pending == nil && done == 0 && strings.TrimSpace(se) == "" {
+			key := fmt.Sprint(jobs[0])
+			r.mu.Lock()
+			again := !r.retried[key]
+			r.retried[key] = true
+			r.mu.Unlock()
+			if again {
+				continue
+			}
+		}
 		if strings.Contains(se, "VERIF-MACHINERY") || pending == nil {
 			r.mu.Lock()
 			r.machErr = append(r.machErr, fmt.Sprintf("child died outside a judged call (job %v, err %v): %s", jobs[minInt(done, len(jobs)-1)], err, tail(se, 1500)))
@@ -636,13 +673,28 @@ func projKey(l line) string {
 }
 
 func parentMain(casesPath, outPath, scratch string, seed int64, nmut, workers, reps int, rejectSample int, cpuMs int, maxBad int) {
-	raw, err := os.ReadFile(casesPath)
-	if err != nil {
-		panic(err)
-	}
 	var cases []gcase
-	if err := json.Unmarshal(raw, &cases); err != nil {
-		panic(err)
+	var hexIns [][]byte
+	if strings.HasSuffix(casesPath, ".hex") { // replay: one hex-encoded input per line instead of generated cases
+		raw, err := os.ReadFile(casesPath)
+		if err != nil {
+			panic(err)
+		}
+		for _, ln := range strings.Fields(string(raw)) {
+			b, err := hex.DecodeString(ln)
+			if err != nil {
+				panic(err)
+			}
+			hexIns = append(hexIns, b)
+		}
+	} else {
+		raw, err := os.ReadFile(casesPath)
+		if err != nil {
+			panic(err)
+		}
+		if err := json.Unmarshal(raw, &cases); err != nil {
+			panic(err)
+		}
 	}
 	// canonical order: independent of TLC's enumeration order
 	sort.Slice(cases, func(i, j int) bool {
@@ -651,10 +703,15 @@ func parentMain(casesPath, outPath, scratch string, seed int64, nmut, workers, r
 		return bytes.Compare(a, b) < 0
 	})
 	rng := rand.New(rand.NewSource(seed))
+	stats := map[string]int{}
 	var ins []input
 	for i, c := range cases {
 		full, info := concretise(c)
 		ins = append(ins, input{kind: "gen", caseIdx: i, data: full, info: info})
+	}
+	for _, b := range hexIns {
+		cases = append(cases, gcase{Var: "replay"})
+		ins = append(ins, input{kind: "gen", caseIdx: len(cases) - 1, data: b})
 	}
 	ngen := len(ins)
 	for i := 0; i < ngen; i++ {
@@ -673,7 +730,7 @@ func parentMain(casesPath, outPath, scratch string, seed int64, nmut, workers, r
 	self, _ := os.Executable()
 	inputsPath := filepath.Join(scratch, "inputs.bin")
 	writeInputs(inputsPath, ins)
-	r := &runner{self: self, inputs: inputsPath, scratch: scratch, memcap: 3072, deadline: 240 * time.Second, cpuLimit: 150 * time.Second}
+	r := &runner{self: self, inputs: inputsPath, scratch: scratch, memcap: 3072, deadline: 240 * time.Second, cpuLimit: 150 * time.Second, retried: map[string]bool{}}
 
 	// phase A: parser (+ NewInfo variants on generated cases) and Session.AddTorrent (stopped) on every input
 	var jobs []job
@@ -720,19 +777,44 @@ func parentMain(casesPath, outPath, scratch string, seed int64, nmut, workers, r
 		}
 		byKey[k] = append(byKey[k], id)
 	}
-	if maxBad > 0 && len(keys) > maxBad {
-		// seeded sample of the projection classes (tier budget); the classes are kept in canonical order
-		perm := rng.Perm(len(keys))[:maxBad]
-		sort.Ints(perm)
-		var ks []string
-		for _, i := range perm {
-			ks = append(ks, keys[i])
+	if maxBad > 0 {
+		// tier budget: projection classes that are expensive to run (a negative or >= 2^62 length: candidates for
+		// the endless piece construction) are sampled (seeded); all other classes are run.  The judgement stays with the spec.
+		var cheap, costly []string
+		for _, k := range keys {
+			if strings.Contains(k, `"neg":1`) || regexp.MustCompile(`"m":\[\d+,\d+,\d+,\d+,\d+\]`).MatchString(k) {
+				costly = append(costly, k)
+			} else {
+				cheap = append(cheap, k)
+			}
 		}
-		keys = ks
+		if len(costly) > maxBad {
+			perm := rng.Perm(len(costly))[:maxBad]
+			sort.Ints(perm)
+			var ks []string
+			for _, i := range perm {
+				ks = append(ks, costly[i])
+			}
+			costly = ks
+		}
+		stats["projections.costly.run"] = len(costly)
+		keys = append(cheap, costly...)
 	}
+	r.extra = map[int]time.Duration{}
 	var jobsB []job
 	for _, k := range keys {
 		ids := byKey[k]
+		var proj []any
+		json.Unmarshal([]byte(k), &proj)
+		np := 0.0
+		if nl, ok := proj[1].([]any); ok {
+			for i := len(nl) - 1; i >= 0; i-- {
+				np = np*10000 + nl[i].(float64)
+			}
+		}
+		for i := 0; i < len(ids) && i < reps; i++ {
+			r.extra[ids[i]] = time.Duration(np*300) * time.Microsecond
+		}
 		for i := 0; i < len(ids) && i < reps; i++ {
 			jobsB = append(jobsB, job{ids[i], fNP}, job{ids[i], fStart})
 		}
@@ -752,7 +834,6 @@ func parentMain(casesPath, outPath, scratch string, seed int64, nmut, workers, r
 	// output: every accepted or eventful line, and one in rejectSample of the plain rejections
 	f, _ := os.Create(outPath)
 	w := bufio.NewWriter(f)
-	stats := map[string]int{}
 	nrej := 0
 	put := func(l line) {
 		id := idOf(l)
